@@ -8,8 +8,21 @@ import (
 	bolt "go.etcd.io/bbolt"
 )
 
-var u32 = binary.BigEndian.Uint32
-var u64 = binary.BigEndian.Uint64
+// u32 and u64 decode a stored field. A record created with only some of its fields has no value for
+// the others (Bucket.Get returns nil); a missing or short value reads as 0 instead of panicking.
+func u32(b []byte) uint32 {
+	if len(b) < 4 {
+		return 0
+	}
+	return binary.BigEndian.Uint32(b)
+}
+
+func u64(b []byte) uint64 {
+	if len(b) < 8 {
+		return 0
+	}
+	return binary.BigEndian.Uint64(b)
+}
 
 func i64ToB(value int64) []byte {
 	oct := make([]byte, 8)
